@@ -35,10 +35,22 @@ def rich_lens(rnd):
     from optiland.scatter import GaussianBSDF, LambertianBSDF
     from optiland.rays import PolarizationState
     kinds = ("standard", "standard", "even_asphere", "polynomial", "chebyshev")
-    o, meta = G.random_lens(rnd, kinds=kinds, mirrors=True, tilts=rnd.random() < 0.4, catalogue=True,
-                            apertures=True, coatings=True, absorbing=True)
+    tele = rnd.random() < 0.15
+    if tele:    # object-space telecentric: finite object, object NA, height fields
+        o, meta = G.random_lens(rnd, kinds=kinds, mirrors=False, tilts=False, catalogue=True, apertures=True,
+                                coatings=True, absorbing=True, finite_object=True, aperture="objectNA",
+                                field_type="object_height")
+        o.obj_space_telecentric = True
+    else:
+        o, meta = G.random_lens(rnd, kinds=kinds, mirrors=True, tilts=rnd.random() < 0.4, catalogue=True,
+                                apertures=True, coatings=True, absorbing=True)
     sg = o.surface_group
     feats = set(meta["kinds"])
+    if tele:
+        feats.add("telecentric")
+    if rnd.random() < 0.2:
+        o.fields.set_telecentric(rnd.random() < 0.5)
+        feats.add("fieldgroup_telecentric_flag")
     n = sg.num_surfaces
     for k in range(1, n - 1):
         s = sg.surfaces[k]
@@ -163,12 +175,18 @@ def reload_case(args):
 
 def _reload_case(args):
     seed, how = args
-    rnd = random.Random(seed)
+    rnd = random.Random(abs(seed))
     from optiland.optic import Optic
     from optiland.fileio import load_optiland_file, save_optiland_file
     try:
-        o, meta = G.quiet(rich_lens, rnd)
-        meta["edits"] = G.quiet(edit_history, rnd, o, meta)
+        if seed < 0:    # a bundled sample design
+            classes = G.sample_classes()
+            cls = classes[(-seed - 1) % len(classes)]
+            o = cls()
+            meta = {"features": ["sample:" + cls.__name__], "tilted": False, "mirror": False, "kinds": [], "edits": []}
+        else:
+            o, meta = G.quiet(rich_lens, rnd)
+            meta["edits"] = G.quiet(edit_history, rnd, o, meta)
     except Exception as ex:
         return {"seed": seed, "skip": "build: %s: %s" % (type(ex).__name__, ex)}
     ev = {"id": None, "seed": seed, "how": how, "exc": "", "meta": meta}
@@ -269,6 +287,10 @@ def main(ctx):
     # ---- 2. feature-rich lenses ----------------------------------------------------
     n = 160 if quick else 3000
     tasks = [(ctx.seed * 15485863 + i, "dict" if i % 2 else "file") for i in range(n)]
+    nsamp = len(G.sample_classes())
+    tasks += [(-(i + 1), "dict" if (i + ctx.seed) % 2 else "file") for i in range(nsamp)]
+    if not quick:
+        tasks += [(-(i + 1), "file" if (i + ctx.seed) % 2 else "dict") for i in range(nsamp)]
     with ProcessPoolExecutor(max_workers=16) as ex:
         res = list(ex.map(reload_case, tasks, chunksize=4))
     evs = []
